@@ -31,7 +31,7 @@ def step(cfg, hist):
     r.n = 1
     case = dict(cfg, hist=[list(o) for o in hist])
     name = cfg["method"]
-    if obs is not None and obs["op"][0] in ("int", "intT", "intF"):
+    if obs is not None and obs["op"][0] in ("int", "intT", "intF", "intU"):
         if obs["raised"] == "budget":
             r.v("C03/runaway/%s" % name, "integration to a finite target terminates", case,
                 observed=dict(steps=obs["steps"], t_last=float(a.t[-1]), target=obs["target"], rows=len(a)), expected="about %d steps" % driver.min_steps(obs["t_before"], obs["target"], obs["dt_before"] or 1))
@@ -199,11 +199,25 @@ def run(ctx):
                         t0, tf = off + a_, off + b_
                         for dt0 in (0.1, 0.3, 0.25) if off != 0.0 else (0.1, 0.3):
                             mid = off + 0.5 * (a_ + b_)
-                            for h in ([("int",), ("int",), ("intT", t0)], [("intT", mid), ("intT", mid), ("int",)], [("intT", tf), ("intT", mid)]):
+                            for h in ([("int",), ("int",), ("intT", t0)], [("intT", mid), ("intT", mid), ("int",)], [("intT", tf), ("intT", mid)],
+                                      [("int",), ("intU", 1), ("intU", -1)], [("intT", mid), ("intU", -2), ("dt", dt0), ("int",)], [("intU", 1), ("intU", 40), ("dt", dt0), ("int",)]):
+                                # (after a target a few ulps away the library has clipped dt to half of that distance: the histories restore dt before going on)
                                 fcases.append(dict(method=m, dtype=dn, rhs="const", t0=t0, tf=tf, dt0=dt0, far_hist=[list(o) for o in h]))
                                 if m in ("RK45CKSolver", "RK4Solver") and dn == "float64" and dt0 == 0.1:
                                     fcases.append(dict(method=m, dtype=dn, rhs="osc", t0=t0, tf=tf, dt0=dt0, far_hist=[list(o) for o in h]))
         grid.pmap(far_case, fcases, ctx, section="far", horizon=90)
+    if not ctx.only or "shape" in ctx.only:
+        scases = []
+        for m in ["EulerSolver", "RK4Solver", "RK45CKSolver", "DOPRI45", "ABAs5o6HSolver", "ImplicitMidpoint"] + ([] if ctx.quick else ["RadauIIA5", "RK8713MSolver", "BackwardEuler"]):
+            for shape in ([], [1], [2, 3], [2, 1, 2]):
+                if shape == [] and m == "ABAs5o6HSolver":
+                    continue            # a splitting method needs at least two variables
+                for span in ([0.0, 2.0], [1.0, -1.0], [-1000.0, -1002.0]):
+                    for dn in ("float64", "float32") if ctx.quick else ("float64", "float32", "longdouble"):
+                        for dt0 in (0.25, 0.1):
+                            for dense in (False, True):
+                                scases.append(dict(method=m, shape=shape, span=span, dtype=dn, dt0=dt0, dense=dense))
+        grid.pmap(shape_case, scases, ctx, section="shape", horizon=300)
 
 
 def far_case(case):
@@ -218,7 +232,64 @@ def far_case(case):
     return r
 
 
+def shape_case(case):
+    """state arrays of every rank (scalar, (1,), matrix, rank 3): y' = C (constant array) is integrated exactly by every method, so every row must pair with
+    its time; with one time event in the run and two calls"""
+    de, I = lc._imports()
+    r = Res()
+    dtype = lc.DT[case["dtype"]]
+    shape = tuple(case["shape"])
+    n = int(np.prod(shape)) if shape else 1
+    C = (np.arange(1, n + 1, dtype=np.float64).reshape(shape) / 4.0 - 0.75).astype(dtype) if shape else dtype(0.5)
+    y0 = (np.arange(n, dtype=np.float64).reshape(shape) / 8.0 - 0.25).astype(dtype) if shape else dtype(-0.25)
+
+    def f(t, y, **kw):
+        return np.asarray(C, dtype=y.dtype) + 0 * y
+    t0, tf = case["span"]
+    mid = t0 + 0.4375 * (tf - t0)
+
+    def ev(t, y, **kw):
+        return np.asarray(t - dtype(t0 + 0.7 * (tf - t0)))
+    a = de.OdeSystem(f, y0=y0, t=(dtype(t0), dtype(tf)), dt=dtype(case["dt0"]), rtol=dtype(1e-6), atol=dtype(1e-6), dense_output=bool(case["dense"]))
+    a.method = lc.by_name(case["method"])
+    name = case["method"]
+    r.n = 1
+    try:
+        i0 = 0
+        for target in (mid, tf):
+            a.integrate(dtype(target), events=[ev], callback=driver.Budget(5000))
+            ok = driver.segment_invariants(r, "C03/shape", dict(case, target=float(target)), a.t, a.y, i0, len(a) - 1, dtype(target), dtype(t0), np.asarray(y0, dtype=dtype), dtype)
+            if not ok:
+                break
+            i0 = len(a) - 1
+        else:
+            T = np.asarray(a.t, dtype=LD_)
+            Y = np.asarray(a.y, dtype=LD_).reshape(len(T), -1)
+            want = np.asarray(y0, dtype=LD_).reshape(1, -1) + (T - T[0])[:, None] * np.asarray(C, dtype=LD_).reshape(1, -1)
+            tol = 64 * max(driver.eps_of(dtype), 2.0 ** -52) * (len(T) + 4) * 8 + (1e-5 if lc.family(name).startswith("implicit") else 0)
+            if np.asarray(a.y).shape != (len(T),) + shape:
+                r.v("C03/shape/layout/%s" % name, "times and states stay paired one-to-one (one state of the shape of y0 per time)", case, observed=list(np.asarray(a.y).shape), expected=[len(T)] + list(shape))
+            elif np.max(np.abs(Y - want)) > tol:
+                k = int(np.argmax(np.max(np.abs(Y - want), axis=1)))
+                r.v("C03/shape/pairing/%s" % name, "each state row belongs to its time row (y' = const is integrated exactly)", dict(case, row=k),
+                    observed=dict(t=float(T[k]), err=float(np.max(np.abs(Y[k] - want[k])))), expected="y_k = y0 + C (t_k - t0)")
+            if len(a.events) != 1:
+                r.v("C03/shape/events/%s" % name, "the run with one time event records it once", case, observed=len(a.events), expected=1)
+    except de.exception_types.FailedIntegration as e:
+        if driver.budget_hit(e):
+            r.v("C03/runaway/%s" % name, "integration to a finite target terminates", case, observed=dict(rows=len(a)), expected="terminates")
+        else:
+            r.add("raised")
+    for v in r.viol:
+        if v["key"].count("/") == 2 and v["key"].startswith("C03/shape/") and not v["key"].endswith(name):
+            v["key"] = v["key"] + "/" + name
+    r.out(("shape", name, case["dtype"], len(shape), case["dense"], t0 < tf))
+    return r
+
+
 def replay(case):
+    if "shape" in case:
+        return shape_case({k: v for k, v in case.items() if k not in ("target", "row")})
     if "far_hist" in case:
         return far_case(case)
     if "kind" in case:
